@@ -297,7 +297,23 @@ pub fn run(rep: &mut Report) {
             j_dur(op, dl[(i / m) as usize], st[(i % m) as usize], out);
         });
     }
-    sweep(rep, "c14.approx", n, |i, out| j_approx(dl[i as usize], out));
+    sweep(rep, "c14.approx", n, |i, out| j_approx(dl[i as usize], out));    // interior scan (round 8): evenly spread, unremarkable durations x unremarkable steps (odd and even, every magnitude)
+    {
+        let nsc: u64 = if deep { 30_000_000 } else { 2_000_000 };
+        rep.bound("interior_scan_points", nsc);
+        sweep(rep, "c14.scan_dur", 3 * nsc, |i, out| {
+            let k = i / 3;
+            let s = match k % 4 {
+                0 => lattice::scan_point(k, 1, 1, 100_000),                      // small steps, every residue class
+                1 => lattice::scan_magnitude(k, 2, 1, 76).clamp(DMIN, DMAX),     // every magnitude, both signs
+                2 => -lattice::scan_point(k, 3, 1, 10_000_000_000_000),          // negative steps up to hours
+                _ => lattice::scan_point(k, 4, 1, 400 * NS_DAY),
+            };
+            j_dur((i % 3) as usize, scan_dur(k, 0), s, out);
+        });
+        sweep(rep, "c14.scan_approx", nsc, |i, out| j_approx(scan_dur(i, 5), out));
+    }
+
     // order independence (depth-2 operation sequences on one thread): floor / ceil / round of 8 durations by 6 steps
     {
         let oa: [i128; 8] = [0, 1, -1, 14 * NS_S, NPC + 14 * NS_S, -NPC / 2, 2 * NPC, 60 * 31_557_600 * NS_S];
